@@ -30,6 +30,25 @@ def indirect_call(field):
     return pred
 
 
+def failure_label(cond):
+    """Label of the edge on which  <call> == Device_Ok  is false, for the
+    condition forms  !(x == Ok), x != Ok, x == Ok, !(x != Ok), x == Err ..."""
+    c = ir.strip(cond)
+    neg = False
+    while isinstance(c, dict) and c.get("k") == "un" and c.get("op") == "!":
+        neg = not neg
+        c = ir.strip(c["e"])
+    if isinstance(c, dict) and c.get("k") == "bin" and c.get("op") in ("==", "!="):
+        consts = [x for x in (ir.strip(c["l"]), ir.strip(c["r"])) if isinstance(x, dict) and x.get("k") == "int"]
+        ok_named = any(x.get("e") == "Device_Ok" or x.get("v") == 0 for x in consts)
+        success_when_true = (c["op"] == "==") == ok_named
+        if neg:
+            success_when_true = not success_when_true
+        return "false" if success_when_true else "true"
+    # bare call: non-zero is success
+    return "true" if neg else "false"
+
+
 def stores_const(field_suffix, value):
     def pred(s):
         for lv, op, rhs, w in ir.writes_of(s):
@@ -487,9 +506,9 @@ def rule_sink_error_path(prog, res, rule="R-SINK-ERROR"):
         c = ir.strip(blk.cond_node()) if blk.cond is not None and blk.stmts[blk.cond] is s else None
         if c is None:
             raise AnalysisBroken("video_sink_thread: storage_append result is not tested")
-        neg = isinstance(c, dict) and c.get("k") == "un" and c.get("op") == "!"
+        fl = failure_label(c)
         for sc in blk.succs:
-            if sc.get("label") == ("true" if neg else "false"):
+            if sc.get("label") == fl:
                 fail_t = sc.get("to")
         if fail_t is None:
             raise AnalysisBroken("video_sink_thread: failure edge of storage_append not found")
@@ -528,8 +547,8 @@ def rule_source_error_path(prog, res, rule="R-SOURCE-ERROR"):
             res.fail(rule, "camera_get_frame result tested", "%s|untested" % rule, f.loc(s),
                      "video_source_thread ignores the result of camera_get_frame")
             continue
-        neg = isinstance(c, dict) and c.get("k") == "un" and c.get("op") == "!"
-        fail_t = [sc.get("to") for sc in blk.succs if sc.get("label") == ("true" if neg else "false")][0]
+        fl = failure_label(c)
+        fail_t = [sc.get("to") for sc in blk.succs if sc.get("label") == fl][0]
         later = paths.reachable_after(f, (fail_t, -1), lambda x: bool(calls(x, "camera_get_frame")) or bool(calls(x, "channel_write_unmap")))
         inst = "video_source_thread: a failed frame call ends the loop without committing"
         if not later:
